@@ -7,6 +7,34 @@ from ..extract import (HEADER, ExtractError, Tr, ast_dump, body_of, const_int, c
 NAME = "Buffer"
 
 
+def locate_sites(docs, strict=True):
+    """name of a generated guard / function -> the AST node (an `if` condition, `iovcnt`'s initialiser) it is translated
+    from.  `generate` below translates exactly these nodes; vlib/gen/bufferskel.py names an `if` of a statement skeleton
+    after the guard generated from that very node (clang's node id: both read the same cached AST dump).
+    strict=False: a site that cannot be located is left out instead of stopping the extraction."""
+    found = {}
+
+    def site(name, f):
+        try:
+            found[name] = f()
+        except ExtractError:
+            if strict:
+                raise
+    site("retrieveKeeps", lambda: if_cond(locate_if(the_function(docs, "retrieve"), "len")))
+    site("ensureNeedsSpace", lambda: if_cond(locate_if(the_function(docs, "ensureWritableBytes"), "len")))
+    site("makeSpaceGrows", lambda: if_cond(locate_if(the_function(docs, "makeSpace"), "len")))
+    site("readFdIovcnt", lambda: kids(locate_var(the_function(docs, "readFd"), "iovcnt"))[-1])
+
+    def fits():
+        # the `else if` that compares the (non-negative) count with the writable area
+        c = [i for i in find_ifs(the_function(docs, "readFd")) if mentions(if_cond(i), "writable")]
+        if not c:
+            raise ExtractError("readFd: no comparison of n with writable")
+        return if_cond(c[0])
+    site("readFdFits", fits)
+    return found
+
+
 def generate():
     docs = ast_dump("muduo/net/Buffer.cc", "muduo::net::Buffer")
     consts = {"kCheapPrepend": "kCheapPrepend", "kInitialSize": "kInitialSize"}
@@ -42,32 +70,25 @@ def generate():
     out.append("/-- both `findEOL` overloads are one `memchr` over the readable bytes (`readableBytes()` / `beginWrite() - start`) -/\n"
                "def findEOLIsMemchr : Bool := %s\n" % ("true" if all(delegates(f, "memchr") and (mentions(f, "readableBytes") or mentions(f, "beginWrite")) for f in eols) else "false"))
 
-    retrieve = the_function(docs, "retrieve")
+    loc = locate_sites(docs)
     t = Tr({"len": "len", "readableBytes()": "readable"}, consts)
     out.append(prop_def("retrieveKeeps", [("len", "Nat"), ("readable", "Nat")],
-                        unparen(t.expr(if_cond(locate_if(retrieve, "len")))),
+                        unparen(t.expr(loc["retrieveKeeps"])),
                         "`Buffer::retrieve`: the `if` that keeps part of the content"))
-    ensure = the_function(docs, "ensureWritableBytes")
     t = Tr({"len": "len", "writableBytes()": "writable"}, consts)
     out.append(prop_def("ensureNeedsSpace", [("writable", "Nat"), ("len", "Nat")],
-                        unparen(t.expr(if_cond(locate_if(ensure, "len")))),
+                        unparen(t.expr(loc["ensureNeedsSpace"])),
                         "`Buffer::ensureWritableBytes`: the `if` guarding `makeSpace`"))
-    mks = the_function(docs, "makeSpace")
     t = Tr({"len": "len", "writableBytes()": "writable", "prependableBytes()": "prependable"}, consts)
     out.append(prop_def("makeSpaceGrows", [("writable", "Nat"), ("prependable", "Nat"), ("len", "Nat")],
-                        unparen(t.expr(if_cond(locate_if(mks, "len")))),
+                        unparen(t.expr(loc["makeSpaceGrows"])),
                         "`Buffer::makeSpace`: grow the vector (true) or slide the content (false)"))
-    iov = locate_var(readfd, "iovcnt")
     t = Tr({"writable": "writable", "sizeof(extrabuf)": "extrabufSize"}, consts)
     out.append("/-- `Buffer::readFd`: `iovcnt` -/\ndef readFdIovcnt (writable : Nat) : Nat := %s\n"
-               % unparen(t.expr(kids(iov)[-1])))
+               % unparen(t.expr(loc["readFdIovcnt"])))
     t = Tr({"writable": "writable", "n": "n"}, consts)
-    # the `else if` that compares the (non-negative) count with the writable area
-    fits = [i for i in find_ifs(readfd) if mentions(if_cond(i), "writable")]
-    if not fits:
-        raise ExtractError("readFd: no comparison of n with writable")
     out.append(prop_def("readFdFits", [("n", "Nat"), ("writable", "Nat")],
-                        unparen(t.expr(if_cond(fits[0]))),
+                        unparen(t.expr(loc["readFdFits"])),
                         "`Buffer::readFd`: everything fitted into the writable area"))
     out.append("end MuduoVerif.Gen.Buffer\n")
     return "\n".join(out)
